@@ -111,6 +111,10 @@ def invoking_ruleset_rule(ctx):
 
 
 def run(ctx):
+    from .C02 import engine_evaluation_order
+    engine_evaluation_order(ctx)          # a paused ruleset is still run every tick (its detectors keep their windows)
+    from .C13 import merge_writes_only_overridable_parts
+    merge_writes_only_overridable_parts(ctx)
     from .C11 import instance_skipped_only_for_documented_reasons
     instance_skipped_only_for_documented_reasons(ctx)
     from .C12 import ruleset_settings_text
